@@ -50,6 +50,10 @@ inductive Expr where
   | or (a b : Expr)
   | only (names : List String) (a : Expr)
   | exclude (name : String) (a : Expr)
+  | rawMulti (xs : List Expr)     -- `MultiMarker(*xs)`: the constructor, not `of`
+  | rawUnion (xs : List Expr)     -- `MarkerUnion(*xs)`
+  | litEmpty
+  | litAny
 
 /-- tokens → PItem group; `[ item item … ]` -/
 partial def parseItems (toks : List String) (acc : List PItem) : Option (List PItem × List String) :=
@@ -67,8 +71,17 @@ partial def parseItems (toks : List String) (acc : List PItem) : Option (List PI
     | _ => none
   | [] => none
 
+mutual
+partial def parseExprs (n : Nat) (toks : List String) (acc : List Expr) : Option (List Expr × List String) :=
+  match n with
+  | 0 => some (acc.reverse, toks)
+  | n + 1 => (parseExpr toks).bind fun (x, r) => parseExprs n r (x :: acc)
 partial def parseExpr (toks : List String) : Option (Expr × List String) :=
   match toks with
+  | "E" :: rest => some (.litEmpty, rest)
+  | "A" :: rest => some (.litAny, rest)
+  | "M" :: n :: rest => n.toNat?.bind fun k => (parseExprs k rest []).map fun (xs, r) => (.rawMulti xs, r)
+  | "U" :: n :: rest => n.toNat?.bind fun k => (parseExprs k rest []).map fun (xs, r) => (.rawUnion xs, r)
   | "P" :: "[" :: rest =>
     (parseItems rest []).map fun (items, rest') => (.leaf (.group items), rest')
   | "&" :: rest =>
@@ -80,13 +93,23 @@ partial def parseExpr (toks : List String) : Option (Expr × List String) :=
   | "exclude" :: name :: rest =>
     (parseExpr rest).map fun (a, r) => (.exclude (dec name) a, r)
   | _ => none
+end
 
+mutual
 def Expr.run (fuel : Nat) : Expr → Option M
   | .leaf p => build fuel p
   | .and a b => (a.run fuel).bind fun x => (b.run fuel).map fun y => M.and fuel x y
   | .or a b => (a.run fuel).bind fun x => (b.run fuel).map fun y => M.or fuel x y
   | .only ns a => (a.run fuel).map fun x => M.only fuel x ns
   | .exclude n a => (a.run fuel).map fun x => M.exclude fuel x n
+  | .rawMulti xs => (Expr.runList fuel xs).map (mkMulti fuel)
+  | .rawUnion xs => (Expr.runList fuel xs).map (mkUnion fuel)
+  | .litEmpty => some .empty
+  | .litAny => some .any
+def Expr.runList (fuel : Nat) : List Expr → Option (List M)
+  | [] => some []
+  | x :: xs => (x.run fuel).bind fun m => (Expr.runList fuel xs).map (m :: ·)
+end
 
 /-- `k=v;k={a,b}` -/
 def parseEnv (s : String) : Env :=
